@@ -300,6 +300,23 @@ def dec2 (tdesc fmtS hex1 hex2 obs : String) : Verdict :=
                      else if obs == "hang" then some "typed decoder did not return" else none }
   | _, _, _ => { model := "bad-arg" }
 
+/-- `c02.decinto`: one document into a variable that already holds `vdesc` (a reused holder: interfaces holding typed
+nil pointers, …). The model is `decodeInto` on that value; the property demanded is C03's: never panic, never hang. -/
+def decInto (tdesc fmtS vdesc hexdoc obs : String) : Verdict :=
+  match parseType tdesc.toList, parseHex hexdoc with
+  | some (t, []), some doc =>
+    match parseVal t vdesc.toList with
+    | some (old, []) =>
+      let r := decodeInto cx (fmtS == "net") false t old (Stream.ofBytes doc)
+      let model := match r.1 with
+        | .ok (v, name) => s!"ok name={hexOfBytes name} v={showVal v} left={r.2.flat.length}"
+        | .err => s!"err left={r.2.flat.length}"
+        | .panic => "panic"
+      { model, spec := if obs == "panic" then some "typed decoder panicked on a destination that holds a value"
+                       else if obs == "hang" then some "typed decoder did not return" else none }
+    | _ => { model := "bad-value" }
+  | _, _ => { model := "bad-arg" }
+
 def fr (allow tdesc hexdoc obs : String) : Verdict :=
   match parseType tdesc.toList, parseHex hexdoc with
   | some (t, []), some doc =>
@@ -506,6 +523,7 @@ def handle (op : String) (args : List String) (obs : String) : Option Verdict :=
   | "c02.dec", [t, f, d, _rk, doc] => some (dec t f d doc obs)
   | "c02.re", [f, t, doc] => some (re f t doc obs)
   | "c02.dec2", [t, f, d1, d2] => some (dec2 t f d1 d2 obs)
+  | "c02.decinto", [t, f, v, doc] => some (decInto t f v doc obs)
   | "c02.fr", [a, t, doc] => some (fr a t doc obs)
   | "c02.fw", [how, t, v] => some (fw how t v obs)
   | "c02.odd", [variant] => some (odd variant obs)
